@@ -452,6 +452,12 @@ Interval<To_Boundary, To_Info>
 ::refine_existential(Relation_Symbol rel, const From& x) {
   PPL_ASSERT(OK());
   PPL_ASSERT(f_OK(x));
+  if (static_cast<const void*>(&x) == static_cast<const void*>(this)) {
+    // The boundaries of `x' would be read after the corresponding
+    // boundary properties of `*this' have been reset.
+    const Interval x_copy(*this);
+    return refine_existential(rel, x_copy);
+  }
   if (check_empty_arg(x)) {
     return assign(EMPTY);
   }
